@@ -1,4 +1,6 @@
 import Aiortc.Model.Jsep.Signaling
+import Aiortc.Model.Jsep.Inherit
+import Aiortc.Model.Jsep.Segments
 import Aiortc.Drv.Util
 /-! Driver for the JSEP signalling model (C14): a pair of modelled peer connections is driven with a
 call trace; after every call the result class and the public state of both peers are printed.
@@ -7,7 +9,13 @@ Request:  `signaling run <step>;<step>;…`   step = `<peer>:<op>[:<arg>]`
   ops: `co:<km>` createOffer (km = media sections the real createOffer produced, `-` if unknown),
        `ca` createAnswer, `sl:<desc>` setLocalDescription(desc), `si:<km>` setLocalDescription(),
        `sr:<desc>` setRemoteDescription(desc), `cl` close
-  desc = `<id>/<type>/<media>`; media = `-` or `+`-joined `<kind>.<mid>.<ufrag><pwd><mux><role>`
+       `par:<sched>~<call>~<call>` two calls in flight on the peer; call = one of the above without the peer;
+       sched = string over `a` (next segment of the first call) / `b` (of the second); what is still pending at the
+       end runs to completion, first call first (Model/Jsep/Segments.lean: `race`)
+  desc = `<id>/<type>/<sess>/<media>`: the description as its text has it (Model/Jsep/Inherit.lean: `RawDesc`);
+         sess = `<ufrag><pwd><setup>` of the session part, media = `-` or `+`-joined `<kind>.<mid>.<ufrag><pwd><mux><setup>`
+         with the section's OWN lines; ufrag/pwd: `-` no line, `0` empty value, `1` present; setup: `-` no line,
+         `a` actpass, `d` active/passive; mux `0`/`1`.  The model resolves session level vs media level itself.
   km   = `-` or `+`-joined `<kind>.<mid>`
 Reply:    `;`-joined `<res>|<obs peer0>|<obs peer1>`, obs = `<state>,<local>,<remote>,<events>`. -/
 namespace Aiortc.Drv.Signaling
@@ -19,33 +27,49 @@ def parseKind? : String → Option Kind
 /-- the harness sends the type string it handed to `RTCSessionDescription` ("bogus" for the bad one) -/
 def parseType? (s : String) : Option DType := some (DType.ofString s)
 
-def parseRole? : Char → Option Role
-  | 'n' => some .missing | 'a' => some .auto | 'd' => some .definite | _ => none
+/-- an `a=setup` line of one level: `-` none, `a` actpass, `d` active / passive -/
+def parseSetup? : Char → Option (Option Role)
+  | '-' => some none | 'a' => some (some .auto) | 'd' => some (some .definite) | _ => none
 
 def parseBit? : Char → Option Bool
   | '0' => some false | '1' => some true | _ => none
 
-def parseMedia? (s : String) : Option Media :=
+/-- an `a=ice-ufrag` / `a=ice-pwd` line of one level: `-` none, `0` empty value, `1` present -/
+def parseTri? : Char → Option (Option Bool)
+  | '-' => some none | '0' => some (some false) | '1' => some (some true) | _ => none
+
+def parseLevel? (u p r : Char) : Option Level :=
+  match parseTri? u, parseTri? p, parseSetup? r with
+  | some ufrag, some pwd, some setup => some { ufrag, pwd, setup }
+  | _, _, _ => none
+
+def parseMedia? (s : String) : Option RawMedia :=
   match s.splitOn "." with
   | [k, mid, fl] =>
     match parseKind? k, fl.toList with
     | some kind, [u, p, x, r] =>
-      match parseBit? u, parseBit? p, parseBit? x, parseRole? r with
-      | some u, some p, some x, some r => some { kind, mid, ufrag := u, pwd := p, mux := x, role := r }
-      | _, _, _, _ => none
+      match parseLevel? u p r, parseBit? x with
+      | some own, some mux => some { kind, mid, own, mux }
+      | _, _ => none
     | _, _ => none
   | _ => none
 
 def parsePlus? {α} (f : String → Option α) (s : String) : Option (List α) :=
   if s = "-" then some [] else (s.splitOn "+").mapM f
 
-def parseDesc? (s : String) : Option Desc :=
+def parseRawDesc? (s : String) : Option RawDesc :=
   match s.splitOn "/" with
-  | [i, t, m] =>
-    match parseNat? i, parseType? t, parsePlus? parseMedia? m with
-    | some id, some type, some media => some { id, type, media }
-    | _, _, _ => none
+  | [i, t, lv, m] =>
+    match lv.toList with
+    | [u, p, r] =>
+      match parseNat? i, parseType? t, parseLevel? u p r, parsePlus? parseMedia? m with
+      | some id, some type, some sess, some media => some { id, type, sess, media }
+      | _, _, _, _ => none
+    | _ => none
   | _ => none
+
+/-- what `SessionDescription.parse` hands to the connection -/
+def parseDesc? (s : String) : Option Desc := (parseRawDesc? s).map RawDesc.resolve
 
 def parseKm? (s : String) : Option (Kind × String) :=
   match s.splitOn "." with
@@ -99,22 +123,39 @@ def showObs (pc : Pc) : String :=
   showSig pc.sig ++ "," ++ showSlot pc.localDescription ++ "," ++ showSlot pc.remoteDescription ++ ","
     ++ toString pc.events
 
+def parseSched? (s : String) : Option (List Nat) :=
+  s.toList.mapM fun c => if c = 'a' then some 0 else if c = 'b' then some 1 else none
+
+def showFlight : Flight → String
+  | .finished r => showRes r
+  | _ => "unfinished"
+
+/-- one step on one peer: a call awaited on its own, or two calls in flight (`par:<sched>~<call>~<call>`) -/
+def stepPeer (pc : Pc) (s : String) : Option (String × Pc) :=
+  if s.startsWith "par:" then
+    match (s.drop 4).toString.splitOn "~" with
+    | [sched, a, b] =>
+      match parseSched? sched, parseCall? (a.splitOn ":"), parseCall? (b.splitOn ":") with
+      | some sc, some ca, some cb =>
+        let r := race pc ca cb sc
+        some ("&".intercalate (r.1.map showFlight), r.2)
+      | _, _, _ => none
+    | _ => none
+  else
+    (parseCall? (s.splitOn ":")).map fun c => let r := step pc c; (showRes r.1, r.2)
+
 def runPair : Pc → Pc → List String → List String → Option (List String)
   | _, _, [], acc => some acc.reverse
   | p0, p1, s :: rest, acc =>
-    match s.splitOn ":" with
-    | peer :: op =>
-      match parseCall? op with
+    if s.startsWith "0:" then
+      match stepPeer p0 (s.drop 2).toString with
+      | some (res, p0') => runPair p0' p1 rest ((res ++ "|" ++ showObs p0' ++ "|" ++ showObs p1) :: acc)
       | none => none
-      | some c =>
-        if peer = "0" then
-          let r := step p0 c
-          runPair r.2 p1 rest ((showRes r.1 ++ "|" ++ showObs r.2 ++ "|" ++ showObs p1) :: acc)
-        else if peer = "1" then
-          let r := step p1 c
-          runPair p0 r.2 rest ((showRes r.1 ++ "|" ++ showObs p0 ++ "|" ++ showObs r.2) :: acc)
-        else none
-    | _ => none
+    else if s.startsWith "1:" then
+      match stepPeer p1 (s.drop 2).toString with
+      | some (res, p1') => runPair p0 p1' rest ((res ++ "|" ++ showObs p0 ++ "|" ++ showObs p1') :: acc)
+      | none => none
+    else none
 
 def handleTop : List String → String
   | ["run", steps] =>
